@@ -151,3 +151,98 @@ Proof.
     destruct (phase_index_found m (locals m) (ev_key x) ph O Hnd Hin Hk) as (j & Hj1 & Hj2). cbn [plus] in Hj1. rewrite Hj1, Hj2.
     apply forallb_forall. intros p Hpi. now rewrite (Hp p Hpi).
 Qed.
+
+(** ** m04 *)
+Lemma td_doneb_spec m w p : td_obj_done w (as_owner m) p -> td_doneb m (w_store w) p = true.
+Proof.
+  unfold td_obj_done, td_doneb. intros [Hp|Hl].
+  - destruct (preflight_obj FObjectSet (as_owner m) false p); [contradiction|reflexivity].
+  - apply orb_true_iff. right. unfold spec_key. fold (key_of (as_owner m) p).
+    destruct (lookup (key_of (as_owner m) p) (w_store w)); [|reflexivity]. cbn [ow_id as_owner] in Hl. now rewrite Hl.
+Qed.
+
+Lemma nth_error_split {A} (l : list A) : forall j x, nth_error l j = Some x -> l = firstn j l ++ x :: skipn (S j) l.
+Proof.
+  induction l as [|a l IH]; intros [|j] x H; cbn in H; try discriminate.
+  - injection H as ->. reflexivity.
+  - cbn [firstn skipn app]. f_equal. now apply IH.
+Qed.
+
+Lemma local_keys_rev_in m k : In k (local_keys (as_owner m) (rev (os_phases m))) ->
+  exists ph, In ph (locals m) /\ In k (pkeys m ph).
+Proof.
+  unfold local_keys. intros H. apply in_flat_map in H. destruct H as (ph & Hph & Hk).
+  apply filter_In in Hph. destruct Hph as [Hph Hl]. apply in_rev in Hph.
+  exists ph. split; [|exact Hk]. unfold locals. apply filter_In. split; [exact Hph|exact Hl].
+Qed.
+
+Lemma going_members_keys force sw k ns n m sw' evs r :
+  find_set (sw_sets sw) k ns n = Some m -> is_going m ->
+  objectset_pass force sw k ns n = (sw', evs, r) ->
+  Forall (fun e => In (ev_key e) (local_keys (as_owner m) (rev (os_phases m)))) (member_evs evs).
+Proof.
+  intros Hf Hg H. pose proof (objectset_pass_going force _ _ _ _ _ _ _ _ Hf Hg H) as Hd.
+  destruct (deletion_pass_inv force _ _ _ _ _ Hd) as (swd & tevs & td & Htd & Hm & _). rewrite Hm.
+  unfold teardown_of in Htd. destruct (os_fin m); [|injection Htd as _ <- _; constructor].
+  destruct (os_orphan m); [injection Htd as _ <- _; constructor|].
+  now destruct (tpm_inv force _ _ _ _ _ _ _ Htd) as (_ & _ & Hk & _).
+Qed.
+
+Lemma target'_model c sw e r : target' (set_obs_s c (sw, e, r)) = find_set (sw_sets sw) (sc_kind c) (sc_ns c) (sc_name c).
+Proof. reflexivity. Qed.
+
+Lemma post_model c sw e r : sc_post (set_obs_s c (sw, e, r)) = w_store (sw_w sw).
+Proof. reflexivity. Qed.
+
+Lemma cstatus_eqb_refl x : cstatus_eqb x x = true.
+Proof. now apply cstatus_eqb_spec. Qed.
+
+Theorem m04_sound (c : scase) : m04 (set_obs_s c (SetCorr.model_run c)) = true.
+Proof.
+  unfold m04. rewrite target_model. destruct (SetCorr.model_run c) as [[sw e] r] eqn:E.
+  destruct (find_set (sc_sets c) (sc_kind c) (sc_ns c) (sc_name c)) as [m|] eqn:Ef; [|reflexivity].
+  destruct (target_kind m) as [(_ & _ & ->)|[(Hgb & _ & Hg)|(_ & -> & _)]]; [reflexivity| |reflexivity].
+  rewrite Hgb. cbn [negb orb].
+  destruct (SetMonitors.keys_nodup m) eqn:Hk; [|reflexivity]. cbn [negb orb].
+  apply keys_nodup_iff in Hk. rewrite members_model, post_model, target'_model, events_model.
+  unfold SetCorr.model_run in E.
+  destruct (find_set_id _ _ _ _ _ Ef) as (Hkd & Hns & Hn).
+  assert (Hf0 : find_set (sw_sets (sc_world c)) (oi_kind (os_id m)) (oi_ns (os_id m)) (oi_name (os_id m)) = Some m) by (rewrite Hkd, Hns, Hn; exact Ef).
+  assert (Ef' : find_set (sw_sets (sc_world c)) (sc_kind c) (sc_ns c) (sc_name c) = Some m) by exact Ef.
+  pose proof (objectset_pass_going (sc_force c) _ _ _ _ _ _ _ _ Ef' Hg E) as Hd.
+  (* all local phases are done whenever the teardown completed *)
+  assert (Hall : ((exists ok, In (SMeta (MFinalizer false ok)) e) \/
+                  (exists rev0 conds ctrlof rem fph ok, In (SMeta (MStatus rev0 conds ctrlof rem fph ok)) e /\ cond_true conds CArchived = true)) ->
+                 os_fin m = true -> os_orphan m = false ->
+                 forallb (phase_doneb m (w_store (sw_w sw))) (locals m) = true).
+  { intros Hev Hfin Horph. apply forallb_forall. intros q Hq. apply forallb_forall. intros p Hp. apply td_doneb_spec.
+    exact (C04_finalizer_held_until_done (sc_force c) (sc_world c) _ _ _ m sw e r Ef Hg Hk Hfin Horph E Hev q p Hq Hp). }
+  apply andb_true_iff. split; [apply andb_true_iff; split; [apply andb_true_iff; split|]|].
+  - (* reverse order *)
+    pose proof (going_members_keys _ _ _ _ _ _ _ _ _ Ef' Hg E) as Hkeys. rewrite Forall_forall in Hkeys.
+    apply forallb_forall. intros x Hx.
+    destruct (local_keys_rev_in m _ (Hkeys x Hx)) as (ph & Hph & Hkx).
+    destruct (phase_index_found m (locals m) (ev_key x) ph O Hk Hph Hkx) as (j & Hj1 & Hj2). cbn [plus] in Hj1. rewrite Hj1.
+    apply forallb_forall. intros q Hq. apply forallb_forall. intros p Hp. apply td_doneb_spec.
+    apply (C04_reverse_order (sc_force c) (sc_world c) _ _ _ m sw e r Ef Hg Hk E (firstn j (locals m)) ph (skipn (S j) (locals m)) (nth_error_split _ _ _ Hj2)) with (q := q); [|exact Hq|exact Hp].
+    apply Exists_exists. exists x. split; [exact Hx|exact Hkx].
+  - (* the finalizer goes / Archived=True only when everything is done *)
+    destruct (os_fin m) eqn:Hfin; [|reflexivity]. cbn [negb orb]. destruct (os_orphan m) eqn:Horph; [reflexivity|]. cbn [orb].
+    match goal with |- negb ?b || _ = true => destruct b eqn:Hb; [|reflexivity] end. cbn [negb orb].
+    apply Hall; auto. apply orb_true_iff in Hb. destruct Hb as [Hb|Hb].
+    + left. apply existsb_exists in Hb. destruct Hb as (x & Hx & Hm). destruct x as [y|[[|] ok|]|y]; try discriminate. eauto.
+    + right. apply existsb_exists in Hb. destruct Hb as ([[[cs co] fph] ok] & Hx & Hm).
+      unfold statuses in Hx. apply in_flat_map in Hx. destruct Hx as (x & Hx & Hs). rewrite events_model in Hx.
+      destruct x as [y|[a o|rv cs' co' rm fph' ok']|y]; try contradiction. destruct Hs as [Hs|[]]. injection Hs as <- <- <- <-.
+      exists rv, cs', co', rm, fph', ok'. auto.
+  - (* until then the finalizer stays and Archived=False is reported *)
+    destruct (os_fin m) eqn:Hfin; [|reflexivity]. cbn [negb orb]. destruct (os_orphan m) eqn:Horph; [reflexivity|]. cbn [orb].
+    destruct (deletion_pass_held (sc_force c) (sc_world c) m sw e r Hf0 Hfin Hd) as [Hev|[(m' & Hm' & Hfin') Hst]].
+    + rewrite Hall; auto.
+    + apply orb_true_iff. right. rewrite Hkd, Hns, Hn in Hm'. rewrite Hm', Hfin'. cbn [andb].
+      apply orb_true_iff. right. apply statuses_forall. intros rv cs co rm fph ok Hi. rewrite events_model in Hi.
+      rewrite (Hst _ _ _ _ _ _ Hi). reflexivity.
+  - (* orphan: nothing is deleted *)
+    destruct (os_orphan m) eqn:Horph; [|reflexivity]. cbn [negb orb].
+    destruct (C05_orphan_deletes_nothing (sc_force c) (sc_world c) _ _ _ m sw e r Ef Hg Horph E) as [-> _]. reflexivity.
+Qed.
